@@ -30,7 +30,42 @@ fn empty_placeholder(v: &Value, cur: &str) -> Option<String> {
 }
 
 pub fn msg_oracle(c: &MutCase, obs: &mut Obs) -> Vec<Violation> {
-    full_oracle(&c.mt, &c.enveloped(), &c.mutation, &format!("msg|MT{}", c.mt), obs)
+    let mut out = full_oracle(&c.mt, &c.enveloped(), &c.mutation, &format!("msg|MT{}", c.mt), obs);
+    // repeated fields appear in the JSON in input order: every top-level JSON array under a tag key is
+    // compared, element by element, with the field-level JSON of the input's occurrences of that tag
+    if let Ok(m) = (msg_ops(&c.mt).parse_full)(&c.enveloped()) {
+        if let Some(fields) = m.json.get("fields").and_then(|f| f.as_object()) {
+            for (k, v) in fields {
+                let arr = match v.as_array() {
+                    Some(a) if is_tag_key(k) && a.len() >= 2 => a,
+                    _ => continue,
+                };
+                let inputs: Vec<&crate::refs::Tok> = c.toks.iter().filter(|t| &t.tag == k).collect();
+                if inputs.len() != arr.len() {
+                    continue; // the tag also occurs inside sequences: not a plain top-level repetition
+                }
+                let sp = match crate::fieldkit::spec_of_tag(k) {
+                    Some(sp) => sp,
+                    None => continue,
+                };
+                for (i, (t, got)) in inputs.iter().zip(arr.iter()).enumerate() {
+                    if let Ok(fv) = (field_ops(sp.ty).parse)(&t.content) {
+                        if &fv.json != got {
+                            out.push(viol(
+                                format!("C08|msg|MT{}|array-order|{}", c.mt, k),
+                                format!(
+                                    "element {i} of the JSON array {k} is {} but occurrence {i} of :{k}: in the input is {:?} = {}",
+                                    got, t.content, fv.json
+                                ),
+                            ));
+                            break;
+                        }
+                    }
+                }
+            }
+        }
+    }
+    out
 }
 
 /// generated envelopes (all header forms and optional header tags) around a minimal body
@@ -277,7 +312,7 @@ pub fn field_oracle_with(c: &FieldRt, obs: &mut Obs, judge_undetermined: bool) -
 }
 
 pub fn run(ctx: &Ctx) {
-    ctx.add_rule("message level: per type, valid / mutated texts in a fixed envelope (LF/CRLF), and minimal bodies in generated envelopes (every block-1/2 form, block-3/5 tag subsets); headers on their own (parse -> JSON -> header equal in JSON and text); accepted => from_value(to_value(m)) equal in JSON and MT text, publish_mt(JSON) == to_mt_message, parse_mt JSON == typed JSON, no empty placeholder; field level: per field type (114), accepted documented-format contents => from_value(to_value(v)) equal in JSON and MT; non-trivial = accepted; distinct by input");
+    ctx.add_rule("message level: per type, valid / mutated texts in a fixed envelope (LF/CRLF), and minimal bodies in generated envelopes (every block-1/2 form, block-3/5 tag subsets); headers on their own (parse -> JSON -> header equal in JSON and text); accepted => from_value(to_value(m)) equal in JSON and MT text, publish_mt(JSON) == to_mt_message, parse_mt JSON == typed JSON, no empty placeholder, top-level JSON arrays of a repeated tag element-wise equal to the input's occurrences in input order; field level: per field type (114), accepted documented-format contents => from_value(to_value(v)) equal in JSON and MT; non-trivial = accepted; distinct by input");
     let to_json = |c: &MutCase| serde_json::to_value(c).unwrap();
     ctx.run_generated(
         "msg",
